@@ -61,6 +61,30 @@ static void grid(vt::Rng& g, long points) {
       first = false;
     }
   }
+  // EXACT coverage of the shared binomial bounds (no sampling): a Theta sketch that saw n distinct items with sampling
+  // fraction theta retains C ~ Binomial(n, theta) entries; the probability that the reported interval misses n on
+  // either side is summed exactly over C (reference binomial pmf via lgamma) and judged by the specification
+  {
+    const double cov_thetas[] = {0.9, 0.5, 0.25, 0.1, 0.05, 0.02, 0.01, 0.003, 0.001};
+    for (double th : cov_thetas) {
+      const double lth = std::log(th), l1 = std::log1p(-th);
+      for (long n = 1; n <= 3000; n = n < 60 ? n + 1 : (long)(n * 1.07) + 1) {
+        std::vector<long long> mu, ml;
+        for (unsigned k = 1; k <= 3; k++) {
+          double missU = 0, missL = 0;
+          for (long c = 0; c <= n; c++) {
+            const double lp = std::lgamma(n + 1.0) - std::lgamma(c + 1.0) - std::lgamma(n - c + 1.0) + c * lth + (n - c) * l1;
+            const double pr = std::exp(lp);
+            if (pr < 1e-18) continue;
+            if (binomial_bounds::get_upper_bound((unsigned long long)c, th, k) < (double)n) missU += pr;
+            if (binomial_bounds::get_lower_bound((unsigned long long)c, th, k) > (double)n) missL += pr;
+          }
+          mu.push_back((long long)std::llround(missU * 1e6)); ml.push_back((long long)std::llround(missL * 1e6));
+        }
+        Ev("BBCov").i("n", n).i("thetaPpm", (long long)std::llround(th * 1e6)).il("missUbPpm", mu).il("missLbPpm", ml).emit();
+      }
+    }
+  }
   // invalid arguments must be refused
   int refused = 0;
   try { binomial_bounds::get_lower_bound(10, 0.5, 0); } catch (const std::invalid_argument&) { refused++; }
